@@ -47,7 +47,18 @@ def gen_cases(env, n_programs, depth):
                 full = pre + lo + "ab" + last + lc + clos
                 k = 1 + len(clos)
                 cases.append((full, [full[: len(full) - i] for i in range(1, k + 1)]))
-    return cases
+    # layout before the closers: the same programs with blank space / line breaks / a comment line right before the first of
+    # the trailing closers (inside the innermost open structure, so closed and truncated text hold the same layout tokens)
+    layout = []
+    pool = list(cases)
+    env.rng.shuffle(pool)
+    for full, truncs in pool[: env.budget(400, 4000)]:
+        k = len(full) - min(len(x) for x in truncs)
+        body, clos = full[: len(full) - k], full[len(full) - k:]
+        for ws in (" ", "\n", "\n  ", "\t", " \n", "\n\n"):
+            layout.append((body + ws + clos, [body + ws + clos[:j] for j in range(k)]))
+    env.note("layout_before_closers_cases", len(layout))
+    return cases + layout
 
 
 def run(env):
